@@ -299,6 +299,10 @@ def check_post_passes(ctx: Ctx) -> None:
     fc_q = f"{TH}:_fix_closing_tag_spacing"
     rets = flow.cfg.returns()
     ctx.require("R-ATOMIC-post", "returns of the tag newline handler", len(rets), 1)
+    from .common import reachable_functions as _reach
+
+    if fm_q not in _reach(prog, [w]):
+        raise AnalysisError("the multi-line tag fix is not called (as a function) from the tag newline handler: the post-pass cannot be located")
     for r in rets:
         org = deep_origins(prog, w, r.ast.value, r, stop={fm_q})
         ctx.ob("R-ATOMIC-post", f"{w.qual} :: {norm(r.ast)} passes the multi-line tag fix", org == frozenset({("call", fm_q)}),
